@@ -22,6 +22,14 @@ import (
 func execAttempt(t *trace, script []string) {
 	for _, line := range script {
 		f := strings.Fields(line)
+		if len(f) == 5 && f[0] == "tiny" {
+			t.Line(line, attemptTiny(atoi(f[1]), atoi(f[2]), atoi(f[3])))
+			continue
+		}
+		if len(f) == 4 && f[0] == "slowcancel" {
+			t.Line(line, attemptSlowCancel(atoi(f[1]), atoi(f[2])))
+			continue
+		}
 		if len(f) != 6 || f[0] != "run" {
 			continue
 		}
@@ -174,7 +182,84 @@ func (c *customCtx) end() {
 	}
 }
 
+// attemptTiny: rates far below the scheduler's resolution (ns..µs), where the runtime's ticker delivers overdue, coalesced ticks:
+// iters calls with the given rate and count, every value received; counts calls whose values are not non-decreasing, calls with
+// more than count values and calls whose channel was not closed.
+func attemptTiny(rateNs, count, iters int) string {
+	nonmono, toomany := 0, 0
+	for i := 0; i < iters; i++ {
+		ctx, cancel := context.WithCancel(context.Background())
+		var prev time.Time
+		n, bad := 0, false
+		for v := range bigbuff.LinearAttempt(ctx, time.Duration(rateNs), count) {
+			if n > 0 && v.Before(prev) {
+				bad = true
+			}
+			prev = v
+			n++
+		}
+		cancel()
+		if bad {
+			nonmono++
+		}
+		if n > count {
+			toomany++
+		}
+	}
+	return fmt.Sprintf("nonmonotonic=%d toomany=%d", nonmono, toomany)
+}
+
+// attemptSlowCancel: the receiver takes nothing, so after the first tick the goroutine is in its "slot full, retry on the next
+// tick" path; the context is then cancelled and the channel must be closed PROMPTLY — well before the next tick (the rate is
+// long: rateMs) — because ctx.Done() is ready in the goroutine's select.
+func attemptSlowCancel(rateMs int, seed int) string {
+	ctx, cancel := context.WithCancel(context.Background())
+	defer cancel()
+	full := make(chan struct{}, 4)
+	var ch <-chan time.Time
+	rm := hk.On(func(e hk.Event) {
+		if e.Name == "attempt.full" {
+			select {
+			case full <- struct{}{}:
+			default:
+			}
+		}
+	})
+	defer rm()
+	rate := time.Duration(rateMs) * time.Millisecond
+	ch = bigbuff.LinearAttempt(ctx, rate, 3)
+	select {
+	case <-full:
+	case <-time.After(rate*2 + stepTimeout):
+		return "never-reached-the-full-slot-path"
+	}
+	time.Sleep(time.Duration(seed%20) * time.Millisecond)
+	cancel()
+	t0 := time.Now()
+	closed := make(chan struct{})
+	go func() {
+		for range ch {
+		}
+		close(closed)
+	}()
+	select {
+	case <-closed:
+		if d := time.Since(t0); d > rate/2 {
+			return fmt.Sprintf("closed-late after %v of a %v period", d.Round(time.Millisecond), rate)
+		}
+		return "closed-promptly"
+	case <-time.After(rate/2 + 50*time.Millisecond):
+		return "still-open-half-a-period-after-cancel"
+	}
+}
+
 func genAttempt(r *rng.R, tier string, i int) []string {
+	if i%25 == 7 {
+		return []string{fmt.Sprintf("tiny %d %d %d %d", []int{1, 20, 100, 1000}[r.Intn(4)], 2+r.Intn(3), 1500, r.Intn(1<<30))}
+	}
+	if i%50 == 13 {
+		return []string{fmt.Sprintf("slowcancel %d %d %d", 500, r.Intn(1<<30), 0)}
+	}
 	count := 1 + r.Intn(5)
 	rate := []int{300, 500, 800, 1200}[r.Intn(4)]
 	pace := r.Pick(45, 35, 20)
